@@ -25,6 +25,7 @@ func runC13(c *core.Ctx) {
 	c.RuleDoc("R13.9", "the context behind Done() is the reader's own")
 	c.RuleDoc("R13.7", "background writers always report")
 	c.RuleDoc("R13.14", "no function of package tar returns with a mutex held")
+	c.RuleDoc("R13.16", "destination files are created with O_TRUNC (= R12.17)")
 	c.RuleDoc("R13.15", "a pool buffer is allocated only after its slot was reserved in the pool's counter")
 	c.RuleDoc("R13.12", "only spawned writers send on the error channel")
 	c.RuleDoc("R13.13", "no error of a destination call is dropped (= R12.2)")
@@ -52,6 +53,12 @@ func runC13(c *core.Ctx) {
 		// Emit: the writers never finish, Done never closes, every Open waits for ever)
 		r17NoLockLeakInHandles(c, p, pkgFuncs(p, "tar"), "R13.14")
 		r13BuffersAreCounted(c, p, "R13.15")
+		// R13.16 (= R12.17): a destination file is created truncating (a name that occurs twice must not yield a mix)
+		if sh12 := findTarShape(p); sh12 != nil {
+			truncRule = "R13.16"
+			c.WithAlias(map[string]string{"R13.16": "R13.16"}, func() { r12CreatesWithHeaderMode(c, p, sh12) })
+			truncRule = "R12.17"
+		}
 		// R13.13 (= R12.2): no error of a destination call is dropped — a directory whose mode could not be set fails the unpack
 		if sh12 := findTarShape(p); sh12 != nil && sh12.destField != "" && sh12.readErr != nil {
 			c.WithAlias(map[string]string{"R12.2": "R13.13"}, func() { r12Drop(c, p, sh12) })
@@ -69,6 +76,7 @@ func runC13(c *core.Ctx) {
 	c.Floor("R13.12", 1)
 	c.Floor("R13.14", 2)
 	c.Floor("R13.15", 1)
+	c.Floor("R13.16", 1)
 	c.Floor("R13.13", 8)
 }
 
